@@ -1,5 +1,6 @@
 import GB.Base.LTS
 import GB.C16.Spec
+import GB.C16.Conn
 /-
   C16 — helper lemmas: the router invariant `Inv` (the whole concrete state is determined by the
   `targets` map) and its preservation by every operation of a router history.
@@ -972,4 +973,312 @@ theorem cinv_step (c : CState) (l : CLabel) (c' : CState) (h : CInv c) (hs : cst
 theorem cinv_reachable (c : CState) (h : GB.LTS.Reachable cstep cinit c) : CInv c :=
   GB.LTS.invariant cstep cinit CInv cinv_init cinv_step c h
 
+
+/-! ### counting: number of live objects = cardinality of `present` -/
+
+/-- number of k < N with f k -/
+def cnt (f : Nat → Bool) : Nat → Nat
+  | 0 => 0
+  | N + 1 => cnt f N + (if f N then 1 else 0)
+
+theorem filter_range_length (f : Nat → Bool) (N : Nat) : ((List.range N).filter f).length = cnt f N := by
+  induction N with
+  | zero => rfl
+  | succ N ih =>
+    rw [List.range_succ, List.filter_append, List.length_append, ih]
+    cases h : f N <;> simp [cnt, h]
+
+theorem cnt_congr (f g : Nat → Bool) (N : Nat) (h : ∀ k, k < N → f k = g k) : cnt f N = cnt g N := by
+  induction N with
+  | zero => rfl
+  | succ N ih =>
+    simp only [cnt]
+    rw [ih (fun k hk => h k (by omega)), h N (by omega)]
+
+theorem cnt_upd_ge (f : Nat → Bool) (k N : Nat) (b : Bool) (h : N ≤ k) : cnt (upd f k b) N = cnt f N :=
+  cnt_congr _ _ _ (fun x hx => by simp [upd]; intro e; omega)
+
+theorem cnt_upd_true (f : Nat → Bool) (k N : Nat) (hk : k < N) (hf : f k = false) :
+    cnt (upd f k true) N = cnt f N + 1 := by
+  induction N with
+  | zero => omega
+  | succ N ih =>
+    simp only [cnt]
+    by_cases e : k = N
+    · subst e
+      rw [cnt_upd_ge f k k true (Nat.le_refl _)]
+      simp [hf]
+    · have : k < N := by omega
+      rw [ih this]
+      have : upd f k true N = f N := by simp [upd]; intro x; omega
+      rw [this]; omega
+
+theorem cnt_upd_false (f : Nat → Bool) (k N : Nat) (hk : k < N) (hf : f k = true) :
+    cnt (upd f k false) N + 1 = cnt f N := by
+  induction N with
+  | zero => omega
+  | succ N ih =>
+    simp only [cnt]
+    by_cases e : k = N
+    · subst e
+      rw [cnt_upd_ge f k k false (Nat.le_refl _)]
+      simp [hf]
+    · have : k < N := by omega
+      have h2 : upd f k false N = f N := by simp [upd]; intro x; omega
+      rw [h2]
+      have := ih this
+      omega
+
+/-- the `present` indicator of a state -/
+def presentB (s : State) : Nat → Bool := fun n => (s.targets n).isSome
+
+/-- every live-object census equals the number of present names below `N` -/
+structure Counts (s : State) (N : Nat) : Prop where
+  polling : cnt s.polling s.next = cnt (presentB s) N
+  conn : cnt s.connOpen s.next = cnt (presentB s) N
+  pw : cnt s.pwOpen s.next = cnt (presentB s) N
+  sw : cnt s.swOpen s.next = cnt (presentB s) N
+
+def opName : ROp → Name
+  | .add n _ => n | .remove n => n | .get n => n | .stream n => n | .call n => n
+
+theorem presentB_upd_some (s s' : State) (n g : Nat) (e : s'.targets = upd s.targets n (some g)) :
+    presentB s' = upd (presentB s) n true := by
+  funext m; by_cases h : m = n <;> simp [upd, presentB, h, e]
+
+theorem presentB_upd_none (s s' : State) (n : Nat) (e : s'.targets = upd s.targets n none) :
+    presentB s' = upd (presentB s) n false := by
+  funext m; by_cases h : m = n <;> simp [upd, presentB, h, e]
+
+theorem counts_stepR {s : State} {N : Nat} (h : Inv s) (hc : Counts s N) (op : ROp) (hn : opName op < N) :
+    Counts (stepR true s op).1 N := by
+  have hf := h.fresh
+  cases op with
+  | add n o =>
+    simp only [opName] at hn
+    cases ht : s.targets n with
+    | some g => simp [stepR, add_present s n o g ht]; exact hc
+    | none =>
+      simp only [stepR]
+      rw [add_absent h n o ht]
+      have hp : presentB s n = false := by simp [presentB, ht]
+      cases o with
+      | ok =>
+        have key : ∀ f : Nat → Bool, f s.next = false → cnt f s.next = cnt (presentB s) N →
+            cnt (upd f s.next true) (s.next + 1) = cnt (upd (presentB s) n true) N := by
+          intro f hfn e
+          rw [cnt_upd_true f s.next (s.next + 1) (by omega) hfn, cnt_upd_true (presentB s) n N hn hp]
+          simp [cnt, hfn, e]
+        constructor
+        · rw [presentB_upd_some s (addedState s n) n s.next rfl]; exact key _ hf.1 hc.polling
+        · rw [presentB_upd_some s (addedState s n) n s.next rfl]; exact key _ hf.2.1 hc.conn
+        · rw [presentB_upd_some s (addedState s n) n s.next rfl]; exact key _ hf.2.2.1 hc.pw
+        · rw [presentB_upd_some s (addedState s n) n s.next rfl]; exact key _ hf.2.2.2.1 hc.sw
+      | fail =>
+        have key : ∀ f : Nat → Bool, f s.next = false → cnt f s.next = cnt (presentB s) N →
+            cnt f (s.next + 1) = cnt (presentB s) N := by
+          intro f hfn e; simp [cnt, hfn, e]
+        constructor
+        · exact key _ hf.1 hc.polling
+        · exact key _ hf.2.1 hc.conn
+        · exact key _ hf.2.2.1 hc.pw
+        · exact key _ hf.2.2.2.1 hc.sw
+      | opts => exact hc
+  | remove n =>
+    simp only [opName] at hn
+    cases ht : s.targets n with
+    | some g =>
+      simp only [stepR]; rw [remove_present h n g ht]
+      have l := h.live n g ht
+      have hp : presentB s n = true := by simp [presentB, ht]
+      have key : ∀ f : Nat → Bool, f g = true → cnt f s.next = cnt (presentB s) N →
+          cnt (upd f g false) s.next = cnt (upd (presentB s) n false) N := by
+        intro f hfg e
+        have a := cnt_upd_false f g s.next l.1 hfg
+        have b := cnt_upd_false (presentB s) n N hn hp
+        omega
+      constructor
+      · rw [presentB_upd_none s (removedState s n g) n rfl]; exact key _ l.2.2.2.2.2.2.2 hc.polling
+      · rw [presentB_upd_none s (removedState s n g) n rfl]; exact key _ l.2.2.2.2.1 hc.conn
+      · rw [presentB_upd_none s (removedState s n g) n rfl]; exact key _ l.2.2.2.2.2.1 hc.pw
+      · rw [presentB_upd_none s (removedState s n g) n rfl]; exact key _ l.2.2.2.2.2.2.1 hc.sw
+    | none => simp only [stepR]; rw [remove_absent s n ht]; exact hc
+  | get n =>
+    simp only [stepR]; unfold GB.C16.get
+    split
+    · exact ⟨hc.polling, hc.conn, hc.pw, hc.sw⟩
+    · exact hc
+  | stream n => exact hc
+  | call n =>
+    simp only [stepR]; unfold GB.C16.call
+    split
+    · exact hc
+    · split
+      · exact ⟨hc.polling, hc.conn, hc.pw, hc.sw⟩
+      · exact hc
+
+theorem counts_init (N : Nat) : Counts init N := by
+  have : ∀ N, cnt (fun _ => false) N = 0 := by
+    intro N; induction N with
+    | zero => rfl
+    | succ N ih => simp [cnt, ih]
+  have hp : presentB init = fun _ => false := by funext m; simp [presentB, init]
+  constructor <;> (rw [hp, this]; simp [init, cnt])
+
+theorem counts_runR {s : State} {N : Nat} (h : Inv s) (hc : Counts s N) (ops : List ROp)
+    (hn : ∀ op ∈ ops, opName op < N) : Counts (runR true s ops).1 N := by
+  induction ops generalizing s with
+  | nil => exact hc
+  | cons o os ih =>
+    simp only [runR, runWith]
+    exact ih (inv_stepR h o) (counts_stepR h hc o (hn o (by simp))) (fun op hop => hn op (by simp [hop]))
+
+
+theorem absent_stepR {s : State} (h : Inv s) (op : ROp) (n : Name) (hop : opName op ≠ n) (hn : s.targets n = none) :
+    (stepR true s op).1.targets n = none := by
+  cases op with
+  | add m o =>
+    simp only [opName] at hop
+    have hnm : n ≠ m := fun e => hop e.symm
+    cases ht : s.targets m with
+    | some g => simp [stepR, add_present s m o g ht, hn]
+    | none =>
+      simp only [stepR]; rw [add_absent h m o ht]
+      cases o <;> simp [addedState, failedState, hnm, hn]
+  | remove m =>
+    simp only [opName] at hop
+    have hnm : n ≠ m := fun e => hop e.symm
+    cases ht : s.targets m with
+    | some g => simp only [stepR]; rw [remove_present h m g ht]; simp [removedState, hnm, hn]
+    | none => simp only [stepR]; rw [remove_absent s m ht]; exact hn
+  | get m => simp only [stepR]; unfold GB.C16.get; split <;> exact hn
+  | stream m => exact hn
+  | call m =>
+    simp only [stepR]; unfold GB.C16.call
+    split
+    · exact hn
+    · split <;> exact hn
+
+theorem absent_runR {s : State} (h : Inv s) (ops : List ROp) (n : Name) (hop : ∀ op ∈ ops, opName op ≠ n)
+    (hn : s.targets n = none) : (runR true s ops).1.targets n = none := by
+  induction ops generalizing s with
+  | nil => exact hn
+  | cons o os ih =>
+    simp only [runR, runWith]
+    exact ih (inv_stepR h o) (fun op ho => hop op (by simp [ho])) (absent_stepR h o n (hop o (by simp)) hn)
+
 end GB.C16
+
+namespace GB.C16.Conn
+open GB GB.C16
+
+/-! ### Close racing Stream: invariant -/
+
+def WF (p : PState) : Prop := p = PState.live ∨ p = PState.closed
+
+structure RInv (s : RState) : Prop where
+  ptr_wf : WF s.ptr
+  closed_grpc : s.ptr = PState.closed → s.grpcClosed = true
+  snap_wf : ∀ i p, (s.spc i = .loaded p ∨ s.spc i = .waited p) → WF p
+  csnap_wf : ∀ j p, s.cpc j = .loaded p → WF p
+  no_nil : ∀ i r, s.spc i = .done r → r ≠ .nilDeref
+  /-- a Close goroutine that is past conn.Close() has closed the gRPC connection -/
+  past_close : ∀ j, s.cpc j = .closedGrpc → s.grpcClosed = true
+
+theorem rinv_init : RInv rinit := by
+  constructor <;> simp [rinit, WF, PState.live, PState.closed]
+
+theorem rinv_step (s : RState) (l : RLabel) (s' : RState) (h : RInv s) (hs : rstep s l = some s') : RInv s' := by
+  cases l with
+  | stream i =>
+    simp only [rstep] at hs
+    cases hp : s.spc i with
+    | idle =>
+      simp [hp] at hs; subst hs
+      refine ⟨h.ptr_wf, h.closed_grpc, ?_, h.csnap_wf, ?_, h.past_close⟩
+      · intro k p hk
+        by_cases e : k = i
+        · subst e; simp at hk; subst hk; exact h.ptr_wf
+        · simp [e] at hk; exact h.snap_wf k p hk
+      · intro k r hk
+        by_cases e : k = i
+        · subst e; simp at hk
+        · simp [e] at hk; exact h.no_nil k r hk
+    | loaded p =>
+      simp [hp] at hs; subst hs
+      refine ⟨h.ptr_wf, h.closed_grpc, ?_, h.csnap_wf, ?_, h.past_close⟩
+      · intro k q hk
+        by_cases e : k = i
+        · subst e; simp at hk; subst hk; exact h.snap_wf k p (Or.inl hp)
+        · simp [e] at hk; exact h.snap_wf k q hk
+      · intro k r hk
+        by_cases e : k = i
+        · subst e; simp at hk
+        · simp [e] at hk; exact h.no_nil k r hk
+    | waited p =>
+      simp [hp] at hs; subst hs
+      have wf := h.snap_wf i p (Or.inr hp)
+      refine ⟨h.ptr_wf, h.closed_grpc, ?_, h.csnap_wf, ?_, h.past_close⟩
+      · intro k q hk
+        by_cases e : k = i
+        · subst e; simp at hk
+        · simp [e] at hk; exact h.snap_wf k q hk
+      · intro k r hk
+        by_cases e : k = i
+        · subst e
+          simp at hk; subst hk
+          cases wf with
+          | inl w => subst w; simp [PState.live]; split <;> simp
+          | inr w => subst w; simp [PState.closed]
+        · simp [e] at hk; exact h.no_nil k r hk
+    | done r => simp [hp] at hs
+  | close j =>
+    simp only [rstep] at hs
+    cases hp : s.cpc j with
+    | idle =>
+      simp [hp] at hs; subst hs
+      refine ⟨h.ptr_wf, h.closed_grpc, h.snap_wf, ?_, h.no_nil, ?_⟩
+      · intro k p hk
+        by_cases e : k = j
+        · subst e; simp at hk; subst hk; exact h.ptr_wf
+        · simp [e] at hk; exact h.csnap_wf k p hk
+      · intro k hk
+        by_cases e : k = j
+        · subst e; simp at hk
+        · simp [e] at hk; exact h.past_close k hk
+    | loaded p =>
+      simp [hp] at hs
+      by_cases hc : p.conn = true
+      · simp [hc] at hs; subst hs
+        refine ⟨h.ptr_wf, fun _ => rfl, h.snap_wf, ?_, h.no_nil, fun _ _ => rfl⟩
+        intro k q hk
+        by_cases e : k = j
+        · subst e; simp at hk
+        · simp [e] at hk; exact h.csnap_wf k q hk
+      · simp [hc] at hs; subst hs
+        refine ⟨h.ptr_wf, h.closed_grpc, h.snap_wf, ?_, h.no_nil, ?_⟩
+        · intro k q hk
+          by_cases e : k = j
+          · subst e; simp at hk
+          · simp [e] at hk; exact h.csnap_wf k q hk
+        · intro k hk
+          by_cases e : k = j
+          · subst e; simp at hk
+          · simp [e] at hk; exact h.past_close k hk
+    | closedGrpc =>
+      simp [hp] at hs; subst hs
+      refine ⟨Or.inr rfl, fun _ => h.past_close j hp, h.snap_wf, ?_, h.no_nil, ?_⟩
+      · intro k q hk
+        by_cases e : k = j
+        · subst e; simp at hk
+        · simp [e] at hk; exact h.csnap_wf k q hk
+      · intro k hk
+        by_cases e : k = j
+        · subst e; simp at hk
+        · simp [e] at hk; exact h.past_close k hk
+    | done => simp [hp] at hs
+
+theorem rinv_reachable (s : RState) (h : GB.LTS.Reachable rstep rinit s) : RInv s :=
+  GB.LTS.invariant rstep rinit RInv rinv_init rinv_step s h
+
+end GB.C16.Conn
